@@ -142,7 +142,7 @@ def execute(case, sched=None):
                     for vid, a, r1, r2 in zip(rr.requested, rr.arrays, res1, res2):
                         r1, r2 = np.asarray(r1), np.asarray(r2)
                         exact = shadow.exact[vid]
-                        d = G.compare(r2, r1, exact=exact)
+                        d = G.compare(r2, r1, exact=exact, lowprec=shadow.lowprec[vid])
                         if d is not None and not shadow.random[vid]:
                             violations.append(dict(cls="optimized_differs_from_unoptimized",
                                                    msg=f"value {vid} with {case['opt2']}: {d}"))
@@ -152,7 +152,7 @@ def execute(case, sched=None):
                                 violations.append(dict(cls="optimized_differs_from_unoptimized",
                                                        msg=f"random-derived value {vid} differs between runs"))
                             continue
-                        d = G.compare(r2, shadow.values[vid], exact=exact)
+                        d = G.compare(r2, shadow.values[vid], exact=exact, lowprec=shadow.lowprec[vid])
                         if d is not None:
                             violations.append(dict(cls="optimized_differs_from_numpy", msg=f"value {vid}: {d}"))
                         # materialisation: every chunk key of the stored grid present
